@@ -28,6 +28,12 @@ def build(m, cfg):
         plugins.append(FencedDirective(dl(), ":"))
     elif d == "rst":
         plugins.append(RSTDirective(dl()))
+    elif d == "colon+rst":
+        plugins.append(FencedDirective(dl(), ":"))
+        plugins.append(RSTDirective(dl()))
+    elif d == "fenced+rst":
+        plugins.append(FencedDirective(dl()))
+        plugins.append(RSTDirective(dl()))
     r = cfg.get("renderer", "html")
     renderer = {"html": "html", "ast": None, "rst": RSTRenderer(), "markdown": MarkdownRenderer()}[r]
     if cfg.get("api") == "html":
